@@ -534,7 +534,7 @@ class C18(Prop):
     def generate(self, rng, tier, shard, nshards):
         big = tier == 'thorough'
         # (a) framing: every type x generated values (in and out of range) x chains
-        per_type = max(3, (60 if big else 12) * 16 // nshards // 4)
+        per_type = max(3, (1200 if big else 12) * 16 // nshards // 4)
         wf = []
         for kind in NAMES:
             for j in range(per_type * (3 if kind in ('version', 'addr') else 1)):
@@ -558,8 +558,10 @@ class C18(Prop):
                 wf.append(('mainnet', m))
         if big and shard == 2 % nshards:
             m = ('inv', [(1, rng.randbytes(32))] * 0x10000)
+            # framing only: the shared model's ser_read takes the length of the remaining stream on every call,
+            # so parsing 65536 entries is quadratic in the driver (11 min); the 0xfe branch of the parser is
+            # covered by the 0x10000-byte strings above
             yield mk('c18.frame', 'regtest', show_msg(m), 0, tag='frame:inv-65536')
-            wf.append(('regtest', m))
 
         # (b) round trips and streams built from the model's frames
         frames = [(ch, m, b) for (ch, m), b in zip(wf, self.model_frames(wf)) if b is not None]
@@ -588,7 +590,7 @@ class C18(Prop):
             for ci, ch in enumerate(CHAINS):
                 small.append((ch, minimal_msg(kind)))
         extra = [(rng.choice(CHAINS), gen_msg(rng, kind, small=True)) for kind in NAMES
-                 for _ in range(2 if big else 1)]
+                 for _ in range(30 if big else 1)]
         sm = [(ch, m, b) for (ch, m), b in zip(small + extra, self.model_frames(small + extra)) if b is not None]
         idx = 0
         for si, (ch, m, b) in enumerate(sm):
@@ -607,7 +609,7 @@ class C18(Prop):
                     if idx % nshards != shard:
                         continue
                 vals = {b[pos] ^ 0x01, b[pos] ^ 0x80, rng.randrange(256), 0, 0xff}
-                if big and fixed and len(b) <= 64:
+                if big and fixed and len(b) <= 130:
                     vals = set(range(256))
                 vals.discard(b[pos])
                 if not big:
@@ -647,7 +649,7 @@ class C18(Prop):
                         yield mk('c18.parse', ch, s.hex(), tag='length-field')
 
         # (d) header-level and payload-level malformations with a correct checksum
-        for _ in range((400 if big else 60) * 16 // nshards // 4 + 1):
+        for _ in range((12000 if big else 60) * 16 // nshards // 4 + 1):
             ch = rng.choice(CHAINS)
             pool = [x for x in frames if len(x[2]) < 3000]
             if not pool:
